@@ -98,6 +98,13 @@ def specs(tier):
         spec = dict(ew)
         spec.update(grammar=[('D1', 1.0)], prince=pr)
         out.append(spec)
+    # a word of letters without case next to masks that differ only in case: the same string several times in the list, twice in a row
+    cjk = dict(t0)
+    cjk['A'] = {2: [('\u5bc6\u7801', .4), ('qq', .3), ('ok', .3)]}
+    cjk['C'] = {2: [('LL', .8), ('UL', .1), ('UU', .1)]}
+    spec = dict(cjk)
+    spec.update(grammar=[('D1', 1.0)], prince=[('A2', .5), ('D1', .3), ('D2', .2)])
+    out.append(spec)
     # rulesets in other encodings: the word file is written in the ruleset's encoding (utf-16 and utf-8-sig start with a byte-order mark - once)
     latin = dict(big)
     latin['A'] = {3: [('\u00e9t\u00e9', .5), ('\u00fcbe', .3), ('abc', .2)]}
